@@ -22,7 +22,7 @@ def scenarios(rng, tier, wd, stats):
         np_ = [s for s in np_ if keep(s)]
         rp = [s for s in rp if keep(s)]
     sc += np_ + rp
-    sc += [s for s in L.fam_retrier_states("c14") if "misb" in s["name"]]
+    sc += [s for s in L.fam_retrier_states("c14") if "misb" in s["name"]] + L.fam_misbehaving_late("c14")
     sc += L.tlc_scripts("c14", rng, wd, stats, 10 if q else 150)
     sc += L.fam_random("c14", rng, 8 if q else 250)
     return sc
@@ -34,7 +34,8 @@ RULE = ("families: 12 kinds of answers to register (valid, bad / malformed signa
         "mistyped / out-of-range fields, other start block, truncated signature, error objects with wrong types, non-JSON, "
         "BOM, NUL bytes, deep nesting, huge, empty, HTML) on the notification path and on the retry path, each followed by "
         "a liveness probe (listtowers, gettowerinfo, next notification); bad and malformed signatures on both paths; a "
-        "misbehaving tower is never sent to again; TLC -simulate behaviours of MC_ClientGen as scripts; seeded random "
+        "misbehaving tower is never sent to again and keeps its status whatever is reported about it later (answers to "
+        "requests that were in flight when it was caught, a refused registertower, a manual retry, a restart); TLC -simulate behaviours of MC_ClientGen as scripts; seeded random "
         "fault sequences; regression scripts. non-trivial / distinct as for C05")
 
 
